@@ -43,7 +43,7 @@ def ty_text(t):
     return t[0]
 
 
-LLVM14_MISSING = {"empty-list-no-context", "binary-literal-operand", "pasted-def-use", "body-defvar-reads-field", "repeated-include", "named-args", "uninitialised-field", "untyped-question", "!exists", "!div", "!tolower", "!toupper", "!range", "!getdagarg", "!getdagname", "!setdagarg",
+LLVM14_MISSING = {"field-access-list-element", "empty-list-no-context", "binary-literal-operand", "pasted-def-use", "body-defvar-reads-field", "repeated-include", "named-args", "uninitialised-field", "untyped-question", "!exists", "!div", "!tolower", "!toupper", "!range", "!getdagarg", "!getdagname", "!setdagarg",
                   "!setdagname", "!listremove", "!logtwo", "!listflatten", "!repr", "!initialized", "dump"}
 
 
@@ -483,20 +483,46 @@ class Gen:
         else:
             self.literal(t, depth)
 
-    def field_sources(self, t):
+    def field_sources(self, t, plain_only=True):
+        """(base name, base Sym, [(field name, field Sym), ..], text between the base and the first `.`)"""
         out = []
         for n, s in self.record_values():
             for fn, fs in self.fields_of(s.ty).items():
-                if self.compatible(fs.ty, t) and fn not in self.hide:
-                    out.append((n, s, fn, fs))
+                if fn in self.hide:
+                    continue
+                if self.compatible(fs.ty, t):
+                    out.append((n, s, [(fn, fs)], ""))
+                # chained access `v.f.g` through a field DECLARED with a class type
+                if not plain_only and fs.ty[0] == "class" and fs.ty[1] in self.classes and self.classes[fs.ty[1]].complete:
+                    for gn, gs in self.fields_of(fs.ty).items():
+                        if self.compatible(gs.ty, t) and gn not in self.hide:
+                            out.append((n, s, [(fn, fs), (gn, gs)], ""))
+        if not plain_only:
+            # an element of a list DECLARED with a class element type: `l[0].f`
+            for n, s in sorted(self.visible().items(), key=lambda x: x[0]):
+                if (s.ty[0] == "list" and s.ty[1][0] == "class" and s.exact and n not in self.hide
+                        and s.ty[1][1] in self.classes and self.classes[s.ty[1][1]].complete):
+                    for fn, fs in self.fields_of(s.ty[1]).items():
+                        if self.compatible(fs.ty, t) and fn not in self.hide:
+                            out.append((n, s, [(fn, fs)], "[0]"))
         return out
 
     def field_access(self, t, depth):
-        n, s, fn, fs = self.r.choice(self.field_sources(t))
+        src = self.field_sources(t, plain_only=False)
+        rich = [x for x in src if len(x[2]) > 1 or x[3] or x[1].kind == "foreach"]
+        n, s, path, idx = self.r.choice(rich if rich and self.r.random() < 0.5 else src)
         self.feat("field-access")
+        if len(path) > 1:
+            self.feat("field-access-chained")
+        if idx:
+            self.feat("field-access-list-element")
+        if s.kind == "foreach":
+            self.feat("field-access-foreach-var")
         self.use(n, s.key, site="ident")
-        self.w(".")
-        self.use(fn, fs.key, site="field-suffix")
+        self.w(idx)
+        for fn, fs in path:
+            self.w(".")
+            self.use(fn, fs.key, site="field-suffix")
 
     def opvar(self, prefix, ty):
         """declare an operator variable; returns (name, Sym)"""
@@ -1142,6 +1168,7 @@ class Gen:
             key = self.decl(name, "foreach")
             self.w(" = ")
             self.use(n, s.key, site="ident")
+            src_exact = s.exact
         elif c == "range":
             et = INT
             name = self.local_name("i", et)
@@ -1166,7 +1193,10 @@ class Gen:
             self.w("]")
         self.w(" in ")
         self.push()
-        self.bind(name, Sym(key, et, "foreach"))
+        var = Sym(key, et, "foreach")
+        if c == "ident" and cands and src_exact:
+            var.exact = True     # an element of a list DECLARED with that element type
+        self.bind(name, var)
         self.loop_vars.append((name, et))
         first = []
         if et in (INT, STRING) and self.in_mc == 0 and r.random() < 0.25:
